@@ -144,8 +144,13 @@ def make_case(family, i, rng, tier):
     if kind == 'client_first' and rng.random() < 0.12:
         # the write carrying the Close fails without killing the connection
         # (time-out / arbitrary error): the websocket must still be closing
-        case['close_write_fails'] = rng.choice(['timeout', 'exc'])
+        case['close_write_fails'] = rng.choice(['timeout', 'exc', 'eintr',
+                                                'enobufs'])
         case['send_everywhere'] = True
+        if rng.random() < 0.5:
+            # ... after the kernel took some or all of the frame: a Close
+            # (or the start of one) IS on the wire although the call failed
+            case['close_write_partial'] = rng.choice([1, 3, 1000000])
     if rng.random() < 0.15:
         # an earlier connection on the same object that ended badly around a
         # Close frame; nothing of it may influence the handshake under test
@@ -246,6 +251,9 @@ def build(case):
     if case.get('close_write_fails'):
         sc['conns'][0]['faults'] = [{'op': 'sendall', 'first_byte': 0x88,
                                      'kind': case['close_write_fails']}]
+        if case.get('close_write_partial'):
+            sc['conns'][0]['faults'][0]['partial'] = \
+                int(case['close_write_partial'])
         sc['connect']['close_timeout'] = 2
     pre = case.get('prelude')
     if pre == 'abandoned_held':
@@ -351,9 +359,12 @@ def _judge(res, case, sc, expected, tr):
     sclose = case['sclose']
 
     if case.get('close_write_fails'):
-        # nothing of the Close reached the wire; from the close() call on the
+        # the write of the Close failed (nothing, a part or all of it had
+        # reached the wire by then); from the close() call on the
         # application must be refused, whatever the transport did
         res.stats['probe:close_write_failed'] += 1
+        if case.get('close_write_partial'):
+            res.stats['probe:close_write_failed_after_partial_write'] += 1
         cl = [c for c in tr.calls if c.op == 'close']
         if cl:
             t_close = cl[0].seq
